@@ -212,10 +212,13 @@ Step ==
                 finPos == g.seq + g.len
                 fin2 == IF takes /\ g.fin /\ finPos <= advEdge[e] THEN finPos ELSE fin0
                 finInOrder == good /\ g.fin /\ ~g.rst /\ fin2 = finPos /\ pre2 >= finPos - 1 /\ finPos <= advEdge[e]
-                ackOfFin == good /\ g.ha /\ closedAt[e] # -1 /\ g.ack = closedAt[e] + 2
+                \* (the socket's own FIN can only be acknowledged once it has been emitted: highest sequence sent beyond it)
+                ackOfFin == good /\ g.ha /\ closedAt[e] # -1 /\ g.ack = closedAt[e] + 2 /\ maxSent[e] >= closedAt[e] + 2
                 \* in window: RCV.NXT <= SEG.SEQ < RCV.NXT + RCV.WND, or SEG.SEQ = RCV.NXT when the window is closed (the monitor
                 \* knows RCV.NXT only as the acknowledged / accepted frontier, either of which is allowed)
-                rstOK == good /\ g.rst /\ g.seq + g.len >= lastAckEm[e]
+                \* (a reset is judged by its sequence number alone: payload that reaches into the window does not help one
+                \*  that starts below every RCV.NXT the socket can have)
+                rstOK == good /\ g.rst /\ g.seq >= lastAckEm[e]
                          /\ (g.seq < Max(advEdge[e], pre2 + 1) \/ g.seq = pre2 + 1 \/ g.seq = lastAckEm[e])
                 \* what e learns as a sender from g
                 shp == IF g.syn THEN 0 ELSE Shift(p)
